@@ -112,7 +112,9 @@ func (b *setextHeadingParser) Close(node ast.Node, reader text.Reader, pc Contex
 		if !ok {
 			generateAutoHeadingID(heading, reader, pc)
 		} else {
-			pc.IDs().Put(id.([]byte))
+			if v, ok := id.([]byte); ok {
+				pc.IDs().Put(v)
+			}
 		}
 	}
 }
